@@ -13,6 +13,7 @@
 //! is compared with the model. Every accepted command is walked by the independent oracle.
 
 mod cases;
+mod nexus;
 mod oracle;
 mod project;
 mod unparse;
@@ -87,6 +88,9 @@ fn text_reason(e: &KipError) -> &'static str {
         ("never a Literal", "literal_subject"),
         ("at least one (field, target) entry", "empty_unset_structural"),
         ("at least one SET or UNSET action", "no_actions"),
+        ("no structure can be created from an id", "tuple_bare_id"),
+        ("?variables are KQL read-pattern syntax", "tuple_pred_variable"),
+        ("one exact predicate: alternation and hop quantifiers", "tuple_pred_path"),
         ("by: <semantic actor>", "assert_missing_by"),
         ("mode: one of", "assert_missing_mode"),
         ("an ASSERT member:", "assert_unknown_member"),
@@ -241,6 +245,9 @@ impl Env {
         if kind == "assert" {
             return self.eval_assert(op, rest);
         }
+        if kind == "ensure" {
+            return self.eval_ensure(op, rest);
+        }
         if kind == "refuse" {
             let (key, text) = rest.split_once(' ').unwrap_or((rest, ""));
             self.report.hit("op:refuse");
@@ -298,6 +305,87 @@ impl Env {
         }
     }
 
+    /// `ENSURE PROPOSITION` through the text route, against the model's `lowerEnsure` (+ `validatePlan`).
+    fn eval_ensure(&mut self, op: &str, rest: &str) {
+        self.report.hit("op:ensure");
+        let Ok(spec) = serde_json::from_str::<Value>(rest) else {
+            self.report.hit("err:decode");
+            self.report.case(op, false);
+            return;
+        };
+        let u = U { sp: Spelling { quote_keys: false, lower_keywords: spec["lower"].as_bool().unwrap_or(false) } };
+        let Some(text) = u.ensure_stmt(&spec) else {
+            self.report.hit("ensure:no_text_spelling");
+            self.report.case(op, false);
+            return;
+        };
+        let ctx = project::Ctx { items: true };
+        let line = (|| -> project::R<String> {
+            let handle = match spec["handle"].as_str() {
+                Some(h) => format!("+ {}", project::enc(h)),
+                None => "-".into(),
+            };
+            Ok(format!("ensure {handle} {} {}", ctx.prop_matcher(&spec["matcher"])?, if spec["expect_version"].as_bool().unwrap_or(false) { 1 } else { 0 }))
+        })();
+        let line = match line {
+            Ok(l) => l,
+            Err(e) => {
+                self.report.disagreement("ensure spec cannot be projected", &[op.to_string()], "-", &e);
+                return;
+            }
+        };
+        let model = self.ask(&line);
+        let inexact = spec["matcher"].get("Id").is_some() || spec.pointer("/matcher/Tuple/predicate/Atom/Variable").is_some() || spec.pointer("/matcher/Tuple/predicate/Path").is_some();
+        match run_real(&format!("text {text}")) {
+            Real::Accepted(tree) => {
+                self.report.hit("ensure:accepted");
+                self.report.case(&tree.to_string(), true);
+                if inexact {
+                    self.report.oracle_failure("structure-from-bare-id", "ENSURE PROPOSITION created structure from an id / an inexact tuple", &[op.to_string(), format!("# text: {text}")], "refused", "accepted");
+                }
+                if let Some(model) = model {
+                    self.report.model_compared += 1;
+                    let out = project::Ctx { items: false };
+                    let imp = tree.pointer("/Kml/clauses/0").ok_or("no clause".to_string()).and_then(|c| out.clause(c)).map(|c| format!("ok {c}"));
+                    match imp {
+                        Ok(imp) if imp == model => {}
+                        Ok(imp) => self.report.disagreement("ENSURE PROPOSITION lowering", &[op.to_string(), format!("# text: {text}"), format!("# model line: {line}")], &model, &imp),
+                        Err(e) => self.report.disagreement("projection drift in ENSURE PROPOSITION", &[op.to_string()], &model, &e),
+                    }
+                }
+                self.compare(op, &tree, Ok(()));
+                self.oracle(&format!("text {text}"), &tree);
+            }
+            Real::Rejected(e, _) => {
+                let why = text_reason(&e);
+                self.report.hit(&format!("ensure:rejected:{why}"));
+                self.report.case(op, false);
+                if let Some(model) = model {
+                    self.report.model_compared += 1;
+                    if why.starts_with("tuple_") {
+                        if model != format!("none:{}", why.trim_start_matches("tuple_")) {
+                            self.report.disagreement("ENSURE PROPOSITION refusal reason", &[op.to_string(), format!("# text: {text}")], &model, &format!("none:{why}"));
+                        }
+                    } else if let Some(clause) = model.strip_prefix("ok ") {
+                        // the model lowers it: then the plan-level guards (or the grammar, for shapes the
+                        // exact flavor cannot even read) must be what refused
+                        let verdict = self.ask(&format!("plan 1 {clause}")).unwrap_or_default();
+                        if verdict == "ok" && why != "grammar" {
+                            self.report.disagreement("ENSURE PROPOSITION refused by the text route, lowered and accepted by the model", &[op.to_string(), format!("# text: {text}")], "ok", &format!("err ({why})"));
+                        } else {
+                            self.report.hit(&format!("ensure:refused_after_lowering:{}", if verdict == "ok" { "grammar".to_string() } else { verdict }));
+                        }
+                    }
+                }
+            }
+            Real::Panicked(msg) => {
+                self.report.case(op, false);
+                self.report.oracle_failure("panic", "the parser panicked on ENSURE PROPOSITION", &[op.to_string()], "Ok or Err", &msg);
+            }
+            Real::Undecodable => {}
+        }
+    }
+
     fn eval_assert(&mut self, op: &str, rest: &str) {
         self.report.hit("op:assert");
         let Ok(mut case) = serde_json::from_str::<Value>(rest) else {
@@ -308,7 +396,14 @@ impl Env {
         let sample = self.filter_sample.clone();
         fix_filters(&mut case, &sample);
         let prefix = case["prefix"].as_u64().unwrap_or(0) as usize;
-        let spec = case["spec"].clone();
+        let mut spec = case["spec"].clone();
+        if let Some(t) = spec.pointer("/matcher/Tuple").cloned()
+            && let Some(atom) = t.pointer("/predicate/Atom").cloned()
+        {
+            spec["subject"] = t["subject"].clone();
+            spec["predicate"] = atom;
+            spec["object"] = t["object"].clone();
+        }
         let sp = Spelling { quote_keys: case["quote_keys"].as_bool().unwrap_or(false), lower_keywords: case["lower"].as_bool().unwrap_or(false) };
         let u = U { sp };
         let Some(stmt) = u.assert_stmt(&spec) else {
@@ -327,13 +422,11 @@ impl Env {
                 None => "-".into(),
             };
             let sup = if spec["superseding"].is_null() { "-".to_string() } else { format!("+ {}", ctx.eref(&spec["superseding"])?) };
-            Ok(format!(
-                "assert {prefix} {handle} {} {} {} {} {sup}",
-                ctx.term(&spec["subject"])?,
-                ctx.patom(&spec["predicate"])?,
-                ctx.term(&spec["object"])?,
-                ctx.asg(&spec["members"])?
-            ))
+            let matcher = match spec.get("matcher").filter(|m| !m.is_null()) {
+                Some(m) => ctx.prop_matcher(m)?,
+                None => format!("qt {} ta {} {}", ctx.term(&spec["subject"])?, ctx.patom(&spec["predicate"])?, ctx.term(&spec["object"])?),
+            };
+            Ok(format!("assert {prefix} {handle} {matcher} {} {sup}", ctx.asg(&spec["members"])?))
         })();
         let line = match line {
             Ok(l) => l,
@@ -384,8 +477,8 @@ impl Env {
                 if let Some(model) = model {
                     self.report.model_compared += 1;
                     let model_rejects = model.starts_with("none:");
-                    let recognised = why.starts_with("assert_");
-                    let same_reason = model == format!("none:{}", why.trim_start_matches("assert_"));
+                    let recognised = why.starts_with("assert_") || why.starts_with("tuple_");
+                    let same_reason = model == format!("none:{}", why.trim_start_matches("assert_").trim_start_matches("tuple_"));
                     if recognised && !same_reason {
                         self.report.disagreement("ASSERT refusal reason", &[op.to_string(), format!("# text: {text}")], &model, &format!("none:{why}"));
                     } else if !recognised && !model_rejects {
@@ -403,7 +496,8 @@ impl Env {
         }
         // independent must-refuse rule
         let members: Vec<&str> = spec["members"].as_array().map(|xs| xs.iter().filter_map(|kv| kv.get(0)?.as_str()).collect()).unwrap_or_default();
-        let must_refuse = !members.contains(&"by") || !members.contains(&"mode") || members.iter().any(|m| !["by", "mode", "stance", "confidence", "at", "valid", "evidence", "key"].contains(m));
+        let inexact = spec.get("matcher").filter(|m| !m.is_null()).is_some_and(|m| m.get("Id").is_some() || m.pointer("/Tuple/predicate/Atom/Variable").is_some() || m.pointer("/Tuple/predicate/Path").is_some());
+        let must_refuse = inexact || !members.contains(&"by") || !members.contains(&"mode") || members.iter().any(|m| !["by", "mode", "stance", "confidence", "at", "valid", "evidence", "key"].contains(m));
         if must_refuse && let Real::Accepted(_) = run_real(&format!("text {text}")) {
             self.report.oracle_failure("assert-accepted-without-actor-or-mode", "ASSERT without by / mode (or with an unknown member) was accepted", &[op.to_string(), format!("# text: {text}")], "refused", "accepted");
         }
@@ -700,6 +794,33 @@ fn asserts(thorough: bool) -> Vec<String> {
         ops.push(format!("refuse structure-from-inexact-tuple ENSURE PROPOSITION ?p (:s, {pred}, :o)"));
         ops.push(format!("refuse structure-from-inexact-tuple ASSERT (:s, {pred}, :o) {{ by: :alice, mode: \"stated\" }}"));
     }
+    // the tuple slot of ASSERT / ENSURE PROPOSITION through the model (`structural_tuple`): ids, predicate
+    // atoms of every kind, nested terms; endpoints as parameters, handles, matchers, nested tuples
+    let scalars = [json!({"Literal": {"String": "P-1"}}), json!({"Param": "pid"}), json!({"Literal": {"Number": 7}})];
+    let preds = [json!({"Atom": {"Literal": "prefers"}}), json!({"Atom": {"Param": "pp"}}), json!({"Atom": {"Variable": "pv"}}), path2("a", "b"), path_hops("a")];
+    let subjects = [tparam("s"), tvar("p0"), tvar("nobody"), tlit("x"), json!({"Match": {"key": {"Literal": {"String": "k"}}}}),
+        json!({"Proposition": {"Id": {"Param": "pid"}}}),
+        json!({"Proposition": {"Tuple": {"subject": tparam("a"), "predicate": {"Atom": {"Literal": "owns"}}, "object": tlit("bike")}}})];
+    let mut matchers: Vec<Value> = scalars.iter().map(|s| json!({"Id": s})).collect();
+    for s in &subjects {
+        for p in &preds {
+            for o in [tparam("o"), tlit("blue"), json!({"Proposition": {"Id": {"Literal": {"String": "P-2"}}}})] {
+                matchers.push(json!({"Tuple": {"subject": s, "predicate": p, "object": o}}));
+            }
+        }
+    }
+    for (i, m) in matchers.iter().enumerate() {
+        for (handle, ev, lower) in [(None, false, false), (Some("e"), true, false), (Some("p0"), false, true)] {
+            ops.push(format!("ensure {}", json!({"handle": handle, "matcher": m, "expect_version": ev, "lower": lower})));
+        }
+        let members = vec![("by".to_string(), param("alice")), ("mode".to_string(), lit("stated"))];
+        let spec = json!({"handle": if i % 2 == 0 { Some("a") } else { None }, "matcher": m, "subject": null, "predicate": null, "object": null,
+            "members": members.iter().map(|(k, v)| json!([k, v])).collect::<Vec<_>>(), "superseding": if i % 3 == 0 { json!({"Param": "old"}) } else { Value::Null }});
+        ops.push(format!("assert {}", json!({"prefix": 1, "spec": spec, "quote_keys": false, "lower": i % 4 == 0})));
+        // and with the members missing: the tuple is looked at first
+        let spec2 = json!({"handle": null, "matcher": m, "subject": null, "predicate": null, "object": null, "members": [["mode", lit("stated")]], "superseding": null});
+        ops.push(format!("assert {}", json!({"prefix": 0, "spec": spec2, "quote_keys": false, "lower": false})));
+    }
     // two handle-less ASSERTs need distinct synthetic handles: positions 0..3
     for prefix in 0..4 {
         ops.push(mk(prefix, None, vec![("by".to_string(), param("alice")), ("mode".to_string(), lit("observed"))], Value::Null, false));
@@ -707,7 +828,29 @@ fn asserts(thorough: bool) -> Vec<String> {
     ops
 }
 
+fn probe() {
+    let rt = tokio::runtime::Builder::new_current_thread().enable_all().build().unwrap();
+    rt.block_on(async {
+        let w = nexus::World::new("probe").await;
+        eprintln!("ids {:?}", w.ids);
+        for kind in ["Concept", "Proposition", "Evidence", "Assertion", "Activity"] {
+            eprintln!("VIEW {kind}: {}", w.view(kind).await);
+            let mut params = std::collections::BTreeMap::new();
+            params.insert("id".to_string(), Value::String(w.ids[kind].clone()));
+            for act in ["SET FIELDS {name: \"n2\"}", "SET FIELDS {stance: \"oppose\"}", "SET FIELDS {key: \"k\"}", "SET FIELDS {name: 3}", "SET ATTRIBUTES {note: \"x\"}", "UNSET ATTRIBUTES {note}",
+                        "SET FACET \"MnemonicState\" {salience: 0.5}", "UNSET FACET \"MnemonicState\" {salience}", "SET STRUCTURAL { (\"has_step\", :id) }", "UNSET STRUCTURAL { (\"has_step\", :id) }"] {
+                let o = w.exec(&format!("UPDATE :id {act}"), &params).await;
+                eprintln!("{kind:12} {act:50} -> {:?}", match &o { nexus::Outcome::Refused{code, message} => format!("REFUSED {code}: {}", &message[..message.len().min(70)]), other => format!("{other:?}") });
+            }
+        }
+    });
+}
+
 fn main() {
+    if std::env::var("C16_PROBE").is_ok() {
+        probe();
+        return;
+    }
     let args = Args::parse();
     let rule = "non-trivial = a command accepted by parse_kip / validate_command that carries at least one assignment block, structural entry, \
                 selection block, handle reference, ENSURE PROPOSITION or PURGE (i.e. something the guards had to look at and the oracle walked), \
